@@ -10,7 +10,13 @@ RULE = ('seeded random histories: a small resource tree (1-6 handles whose count
         'snapshot[a][b], snapshot.a.b - interleaved with Handle.clear(), re-assignments and map clears.  '
         'Observed: which load produced each returned object (identity, never ==), the number of load() calls '
         'and Handle.cached.  Non-trivial: at least one access returned a loaded resource.')
-ASSUMPTIONS = ['a load that raises caches nothing: the next access loads again (loads = invocations that returned, '
+RULE += ('  Loaders that use the tree WHILE loading (scripts: clear their own handle / a sibling / the whole map, '
+         'load other handles, assign into the map, take a snapshot), then continued use on every path.')
+ASSUMPTIONS = ['a clear() issued during a load is overridden when load() returns (tree.py:43-44): the handle ends '
+               'up cached with the returned object - what the unchanged code does, mirrored by model and oracle; a '
+               'loader that calls ITS OWN handle while loading makes load() run twice in one cache period '
+               '(reported as a witness, generated rarely)',
+               'a load that raises caches nothing: the next access loads again (loads = invocations that returned, '
                'tries = all invocations); a loader returning a shared singleton (None, 0, ...) is identified by '
                'the load counter, a loader returning fresh objects by identity']
 TIE = ('hand-written heap model lean/DesperModel/Tree.lean (callH/clearH/cachedH and every access path '
